@@ -210,13 +210,18 @@ def check(an, rep, tier):
         def digit_name(fn):
             """The number of binary digits per mode: the parameter ``q`` or
             the local bound to int(log2(n))."""
+            from .. import roles as _roles
             for n in ast.walk(fn.node):
                 if isinstance(n, ast.Assign) and \
-                        isinstance(n.targets[0], ast.Name) and \
-                        any(isinstance(c, ast.Call) and
-                            (prog.dotted(c.func) or '').endswith('log2')
-                            for c in ast.walk(n.value)):
-                    return n.targets[0].id
+                        isinstance(n.targets[0], ast.Name):
+                    v_ = _roles.inline(fn.node, n.value)
+                    if isinstance(v_, ast.Call) and \
+                            isinstance(v_.func, ast.Name) and \
+                            v_.func.id == 'int' and \
+                            any(isinstance(c, ast.Call) and
+                                (prog.dotted(c.func) or '').endswith('log2')
+                                for c in ast.walk(v_)):
+                        return n.targets[0].id
             return 'q' if 'q' in fn.all_params else None
 
         def canon(fn, node, loopvar=None):
